@@ -29,6 +29,11 @@ CHECKS = {
    text="C17.a: from a symbolic pre-state (target absent / holding the content base_hash names / other content) one real call (WriteTool.execute in each mode, atomic_write_octave) with symbolic base_hash relation, corrections_only and one injected failure is compared with the register model: stale hash => E_HASH and identical file system, dry and failed calls leave files, directories and links identical, a successful install overwrote content hashing to base_hash, the tool object keeps no state (so one step stands for any history). C17.b: writer B's install is injected at every step of writer A's real run while both hold the same base_hash. Known findings (no lock: narrow re-check window; directories created before a later failure) are excluded as families inside the query, anything else is reported.",
    note="CAS claimed for files existing at call start (documented scope); file-system model and injective hash stub trusted; more than two writers and non-POSIX rename semantics outside the claim.",
    ref="DESIGN.md §4 C17"),
+ "C19": dict(
+   technique="z3 regex emptiness queries on the live name patterns + CrossHair symbolic execution of the real path validators and read/write paths over the file-system model",
+   text="RX: the live SCHEMA_NAME_PATTERN (under .match semantics) and the frozen@sha256 reference pattern admit no '/', '\\', '.', NUL and exactly 64 hex digits, for strings of any length. XH: the three path validators, atomic_write_octave, WriteTool.execute, ValidateTool.execute(file_path) and validate_source_uri run under CrossHair over a model tree (symlinks to an outside directory and file, dangling file and directory symlinks, secrets outside the sandbox root) on paths assembled by symbolic index from 7 intermediate x 7 x 12 final segment kinds, absolute and relative: a '..' component, a symlink component (incl. last, incl. dangling) or a bad extension must be refused before any open/read/mkstemp/replace/unlink/mkdir, and no operation may touch a path resolving outside the root. resolve_hermetic_standard returns a path only when the (stubbed) content hash equals the digest.",
+   note="Trusted: file-system model's symlink resolution; segment pools are finite (solver-chosen), NUL and over-long names and the macOS /private carve-out are outside the model; CLI wrappers call the same validators.",
+   ref="DESIGN.md §4 C19"),
 }
 NOT_APPLICABLE = {
  "C06": "quantifies over interpreter configurations (PYTHONHASHSEED, locale, cwd, process boundaries, task interleavings); symbolic execution runs inside one configuration and cannot make these symbolic (DESIGN.md §4 C06)",
